@@ -1108,3 +1108,39 @@ def order_agree(check: Check, repo: Repo, model: AstModel, rule: str = "ORDER-AG
                 n += 1
     _ = tnode
     check.floor(rule, floor, "parser constructions compared with the keys table / the printer")
+
+
+# -- visit(): the kind used for dispatch and for the child keys is the current node's ------
+
+
+def kind_of_current_node(check: Check, repo: Repo, rule: str = "KIND-CURRENT") -> None:
+    check.rule(
+        rule,
+        "in visit() the kind handed to visitor.get_enter_leave_for_kind(...) and to visitor_keys.get(...) "
+        "is the kind of the node in hand: the argument is `node.kind` itself or a local that must equal "
+        "`node.kind` on every path (an equality fact that dies when `node` is rebound - after a visitor "
+        "replaced the node, a kind cached earlier selects the child keys of the node that was replaced)",
+    )
+    fn = repo.func("language.visitor", "visit")
+    flow = FactFlow(CFG(fn))
+    n = 0
+    for c in ast.walk(fn):
+        if not isinstance(c, ast.Call) or not c.args:
+            continue
+        cn = call_name(c)
+        if not (cn.endswith("get_enter_leave_for_kind") or cn == "visitor_keys.get"):
+            continue
+        arg = c.args[0]
+        n += 1
+        if unparse(arg) == "node.kind":
+            check.ob(rule, c, node_text(c, 70), True, "argument is node.kind")
+            continue
+        ok, why = False, f"`{unparse(arg)}` is not node.kind"
+        if isinstance(arg, ast.Name):
+            eq = [f for f in flow.facts_at(c) if f.kind == "eq" and f.name == arg.id and unparse(f.expr) == "node.kind"]
+            ok = bool(eq)
+            why = f"{arg.id} == node.kind holds on every path to the call" if ok else \
+                f"no must-fact `{arg.id} == node.kind` here: `node` may have been rebound since `{arg.id}` was read"
+        check.ob(rule, c, node_text(c, 70), ok, why)
+    if n < 2:
+        raise AnalysisError("visit(): kind dispatch sites not found")
